@@ -297,9 +297,33 @@ class CHECK(Check):
 
     def setup(self, tier, seed):
         self.tier, self.seed = tier, seed
-        self.dbs = sqlref.databases(tier)
+        self.init_dbs(tier)
         self.cons = None
         self.renders = None
+
+    def init_dbs(self, tier):
+        """thorough: all databases for cases with <= 2 non-default features, the quick database set for cases with 3"""
+        self.dbs = sqlref.databases(tier)
+        self.narrow = None
+        self.active = None
+        if tier == 'thorough':
+            keyf = lambda db: repr(sorted(db.items()))
+            pos = {keyf(db): i for i, db in enumerate(self.dbs)}
+            self.narrow = []
+            for db in sqlref.databases('quick'):
+                k = keyf(db)
+                if k not in pos:
+                    pos[k] = len(self.dbs)
+                    self.dbs.append(db)
+                self.narrow.append(pos[k])
+
+    def db_iter(self):
+        idx = self.active if self.active is not None else range(len(self.dbs))
+        for i in idx:
+            yield self.cons[i], self.dbs[i]
+
+    def choose_dbs(self, nondefault):
+        self.active = self.narrow if (self.narrow is not None and nondefault > 2) else None
 
     def cases(self):
         d = 3 if self.tier == 'thorough' else 2
@@ -335,7 +359,7 @@ class CHECK(Check):
                     res.count('render_internal_error_(C17)')
         fails = []
         failed_targets = set()
-        for con, db in zip(self.cons, self.dbs):
+        for con, db in self.db_iter():
             ref_full = sqlref.run(con, q['full_sql'])
             ref = sqlref.run(con, q['sql'])
             if ref_full[0] != 'rows' or ref[0] != 'rows':
@@ -376,10 +400,12 @@ class CHECK(Check):
         res = Result()
         kind, payload = case
         if kind == 'dml':
+            self.choose_dbs(0)
             return self.run_dml(res, payload)
         assign = dict(zip(FEATURES, payload))
         q = build(assign)
         res.key(q['sql'])
+        self.choose_dbs(sum(1 for v in payload if v))
         fails = self.evaluate(q, res)
         for (t, k, msg) in fails:
             # minimise the feature set that still shows this failure
@@ -460,7 +486,7 @@ class CHECK(Check):
         return res
 
     def coverage(self, agg):
-        return {'exhaustive': True, 'databases': len(self.dbs), 'targets': TARGETS,
+        return {'exhaustive': True, 'databases': len(self.dbs), 'databases_used_for_cases_with_3_deviations': len(self.narrow) if self.narrow is not None else len(self.dbs), 'targets': TARGETS,
                 'features': {n: [o[0] if isinstance(o, tuple) else o for o in opts] for n, opts in FEATURES.items()},
                 'rule': 'all feature assignments with <= d non-default features (quick d=2, thorough d=3) + full products join x where, join x order x limit, '
                         'join x targets, wrap x order x limit; 29 DML/DDL statements; every statement on every database; distinct_nontrivial = distinct SQL texts'}
